@@ -1045,10 +1045,10 @@ class Interp:
             names = [c] if c[0] != "tuple" else list(c[1])
             if all(n[0] == "glob" for n in names):
                 mro = libfacts.exc_mro(v[2][0][1], self.program)
-                if v[2][0][1].startswith("rep:") and not any(n[1] in mro for n in names):
+                if v[2][0][1].startswith("rep:") and not any(libfacts.canon_exc(n[1]) in mro for n in names):
                     # a representative is "some class the code does not name": it is none of the named ones
                     return False
-                return any(n[1] in mro for n in names)
+                return any(libfacts.canon_exc(n[1]) in mro for n in names)
         if v in path.facts:
             return path.facts[v]
         t = path.facts.get(("truthy", v))
@@ -1596,7 +1596,7 @@ class Interp:
         if names is None:
             return True
         mro = libfacts.exc_mro(raised[1], self.program)
-        return any(n in mro for n in names)
+        return any(libfacts.canon_exc(n) in mro for n in names)
 
     def s_Try(self, st, path):
         body_outs = self.exec_block(st.body, path)
